@@ -307,7 +307,9 @@ func (tr *Tr) freshRef(st *State, hint string) string {
 	tr.freshRefs[r] = true
 	tr.sc.fact(sEq(r, st.top))
 	nt := tr.freshSym("top", false)
-	tr.sc.fact(sEq(nt, sAdd(st.top, "1")))
+	// the allocation counter advances by at least one: an object's embedded sub-objects are addressed inside the gap
+	// (see subRefOfLoc), so the step is left open
+	tr.sc.fact(sLt(st.top, nt))
 	st.top = nt
 	return r
 }
